@@ -13,7 +13,13 @@ FUNCTIONS = ['uxarray.core.dataarray.UxDataArray._copy',
     'uxarray.core.dataarray.UxDataArray.isel@dims=n_node',
     'uxarray.core.dataarray.UxDataArray.isel@dims=lev,n_edge',
     'uxarray.grid.slice._slice_face_indices@source_is_itself_a_subset',
-    'uxarray.grid.slice._slice_face_indices']
+    'uxarray.grid.slice._slice_face_indices',
+    'uxarray.remap.utils._remap_grid_parse@spherical,nodes',
+    'uxarray.remap.utils._remap_grid_parse@spherical,face centers',
+    'uxarray.remap.utils._remap_grid_parse@spherical,edge centers',
+    'uxarray.remap.utils._remap_grid_parse@cartesian,nodes',
+    'uxarray.remap.utils._remap_grid_parse@cartesian,face centers',
+    'uxarray.remap.utils._remap_grid_parse@cartesian,edge centers']
 STANDINS = ["xarray_ops"]
 ASSUMPTIONS = []
 EXPLANATION = ""
